@@ -113,11 +113,24 @@ def run(opt: Opt, ops: List[int], vals: List[bool], i: int, cur: Dict[str, Any])
                     return False, i, cur
             except KeyError:
                 pass
-        else:  # code == 6: several valid keys at once
+        elif code == 6:  # several valid keys at once
             opt.set_options(**{K1: v, K2: not v})
             cur = dict(cur)
             cur[K1] = v
             cur[K2] = not v
+        else:  # code == 7: enter block, change something inside, leave by a *KeyError* (a builtin lookup error or an
+            # uncaught set_options with an unknown key): the exception type must not matter for the restore
+            saved = dict(cur)
+            try:
+                with opt.global_options(**{K2: v}):
+                    opt.set_options(**{K1: not v})
+                    if v:
+                        raise KeyError("some key")
+                    opt.set_options(**{"no_such_option": 1})
+                    return False, i, cur
+            except KeyError:
+                pass
+            cur = saved
         if not same(opt.get_options(), cur):
             return False, i, cur
         if not same(opt.get_options(defaults=True), DEFAULTS):
@@ -139,7 +152,7 @@ def _history(ops: List[int], vals: List[bool], s0: bool, s1: bool) -> bool:
 
 def check_history3(o0: int, o1: int, o2: int, v0: bool, v1: bool, v2: bool, s0: bool, s1: bool) -> bool:
     """
-    pre: 0 <= o0 <= 6 and 0 <= o1 <= 6 and 0 <= o2 <= 6
+    pre: 0 <= o0 <= 7 and 0 <= o1 <= 7 and 0 <= o2 <= 7
     pre: FIRST_OP < 0 or o0 == FIRST_OP
     post: _
     """
@@ -148,7 +161,7 @@ def check_history3(o0: int, o1: int, o2: int, v0: bool, v1: bool, v2: bool, s0: 
 
 def twin_history3(o0: int, o1: int, o2: int, v0: bool, v1: bool, v2: bool, s0: bool, s1: bool) -> bool:
     """
-    pre: 0 <= o0 <= 6 and 0 <= o1 <= 6 and 0 <= o2 <= 6
+    pre: 0 <= o0 <= 7 and 0 <= o1 <= 7 and 0 <= o2 <= 7
     pre: FIRST_OP < 0 or o0 == FIRST_OP
     post: not _
     """
@@ -157,7 +170,7 @@ def twin_history3(o0: int, o1: int, o2: int, v0: bool, v1: bool, v2: bool, s0: b
 
 def check_history4(o0: int, o1: int, o2: int, o3: int, v0: bool, v1: bool, v2: bool, v3: bool, s0: bool, s1: bool) -> bool:
     """
-    pre: 0 <= o0 <= 6 and 0 <= o1 <= 6 and 0 <= o2 <= 6 and 0 <= o3 <= 6
+    pre: 0 <= o0 <= 7 and 0 <= o1 <= 7 and 0 <= o2 <= 7 and 0 <= o3 <= 7
     pre: FIRST_OP < 0 or o0 == FIRST_OP
     post: _
     """
@@ -166,7 +179,7 @@ def check_history4(o0: int, o1: int, o2: int, o3: int, v0: bool, v1: bool, v2: b
 
 def check_history5(o0: int, o1: int, o2: int, o3: int, o4: int, v0: bool, v1: bool, v2: bool, v3: bool, v4: bool, s0: bool, s1: bool) -> bool:
     """
-    pre: 0 <= o0 <= 6 and 0 <= o1 <= 6 and 0 <= o2 <= 6 and 0 <= o3 <= 6 and 0 <= o4 <= 6
+    pre: 0 <= o0 <= 7 and 0 <= o1 <= 7 and 0 <= o2 <= 7 and 0 <= o3 <= 7 and 0 <= o4 <= 7
     pre: FIRST_OP < 0 or o0 == FIRST_OP
     post: _
     """
